@@ -3,6 +3,7 @@ import AfkakProofs.Group.Trace
 import AfkakProofs.Group.Retry
 import AfkakProofs.Group.Fresh
 import AfkakProofs.Group.Fatal
+import AfkakProofs.Group.Progress
 import AfkakProps.Open.C17
 /-!
 # C17 — a started group member always progresses toward stable membership
@@ -100,6 +101,48 @@ theorem C17_fatal_surfaces_on_replies (cfg : Cfg) (evs : List Ev) : fatalSurface
 theorem C17_fresh_after_eviction (cfg : Cfg) (evs : List Ev) : freshAfterEviction (toMSteps (run cfg evs)) = true :=
   freshAfterEviction_run cfg evs
 
+/-- the hypothesis of `C17_rejoins_bounded_partial`, as a decidable predicate of configuration and
+    event list: no non-Kafka error escaped the join (finding F12), and after the events the member is
+    started, not stopping, no `stop()` is waiting for consumers and the join coroutine is not in the
+    middle of `on_join_prepare` -/
+def eligible (cfg : Cfg) (evs : List Ev) : Bool :=
+  noNonKafkaEscape evs && (final cfg evs).started && !(final cfg evs).stopping && !(final cfg evs).stopDraining &&
+    (final cfg evs).jpc != .prepare && (final cfg evs).jpc != .hang
+
+/-- Bounded rejoin, in model time: once failures cease, an eligible member reaches stable
+    membership (`rejoinNeeded = false`: synced, consumers started, heartbeat running —
+    `C17_stable_heartbeat`) by a failure-free continuation of at most `6 + #consumers` events; the
+    only time that has to pass is the remaining delay of the pending rejoin / coordinator-retry
+    timer (whose delay is the documented back-off: `C17_retriable_rejoins`). -/
+theorem C17_rejoins_bounded_partial (cfg : Cfg) (evs : List Ev) (h : eligible cfg evs = true) :
+    ∃ tail : List Ev, tail.all okEv = true ∧ tail.length ≤ 6 + (final cfg evs).cons.length ∧
+      (∀ dt, Ev.advance dt ∈ tail → ∃ t ∈ (final cfg evs).timers, t.kind ≠ .hb ∧
+        dt = if (final cfg evs).now < t.due then t.due - (final cfg evs).now else 0) ∧
+      (final cfg (evs ++ tail)).rejoinNeeded = false := by
+  simp only [eligible, Bool.and_eq_true, Bool.not_eq_true', bne_iff_ne, ne_eq] at h
+  obtain ⟨⟨⟨⟨⟨h1, h2⟩, h3⟩, h4⟩, h5⟩, h6⟩ := h
+  have hb := final_busy cfg evs (fun e he => by
+    have := List.all_eq_true.mp h1 e he
+    simpa using this)
+  obtain ⟨tail, a, b, c, d⟩ := progress cfg (final cfg evs) (final_sinv cfg evs) hb h2 h3 h4 h5 h6
+  exact ⟨tail, a, b, c, by unfold final; rw [finalFrom_append]; exact d⟩
+
+/-- The excluded case is real: after `start` and a non-Kafka error on the coordinator look-up the
+    member is started, not stopping, no stop is waiting — and NO failure-free continuation, of any
+    length, makes it stable. -/
+theorem C17_rejoins_bounded_counterexample : ¬ Open.C17_rejoins_bounded := by
+  intro h
+  have hs : Stuck (final exCfg [.start, .coordDone (.err .nonKafka)]) := by
+    refine ⟨?_, ?_, ?_, ?_⟩ <;> decide +kernel
+  obtain ⟨tail, a, _, c⟩ := h exCfg [.start, .coordDone (.err .nonKafka)] (by decide +kernel) (by decide +kernel) (by decide +kernel)
+  have ha : tail.all Afkak.Group.okEv = true := by
+    rw [List.all_eq_true] at a ⊢
+    intro e he
+    have := a e he
+    cases e <;> first | exact this | (rename_i r; cases r <;> exact this) | (rename_i x r; cases r <;> exact this)
+  have := (finalFrom_stuck exCfg tail _ ha hs).needed
+  rw [c] at this; cases this
+
 /-! Non-vacuity: an event list with failures at several steps of the join protocol that satisfies
 the hypothesis, on which the member is NOT trivially idle-free (it goes through retry timers). -/
 def exFaults : List Ev :=
@@ -107,6 +150,9 @@ def exFaults : List Ev :=
    .advance 10, .fire 1 none, .coordDone .ok, .metaDone .ok, .joinDone (.err .unknownMemberId)]
 example : noNonKafkaEscape exFaults = true := by decide
 example : ((final exCfg exFaults).timers.map fun t => (t.id, t.kind)) = [(2, .rejoin)] := by decide +kernel
+
+example : eligible exCfg exFaults = true := by decide +kernel
+example : eligible exCfg (exFaults ++ [.advance 1, .fire 2 none, .coordDone .ok]) = true := by decide +kernel
 
 end Afkak.Props.C17
 
@@ -121,6 +167,8 @@ C17_fatal_table
 C17_forgotten_member_resets
 C17_fatal_surfaces_on_replies
 C17_fresh_after_eviction
+C17_rejoins_bounded_partial
+C17_rejoins_bounded_counterexample
 -/
 /- OPEN_STATEMENTS
 C17_never_idle
